@@ -96,11 +96,11 @@ pub fn gen_cfg(r: &mut Rng, o: &CfgOpts) -> String {
         (*r.pick(&[0u64, 1, 1023, 1024, 1025, 4096, 8192]), 1024)
     };
     let iv = *r.pick(&[1u64, 2, 3, 8, 1000]);
-    let levels = if o.extreme_levels && r.chance(1, 8) {
-        *r.pick(&[5u64, 254, 255])
-    } else {
-        *r.pick(&[0u64, 0, 1, 2, 2, 3])
-    };
+    let extreme = o.extreme_levels && r.chance(1, 8);
+    let levels = if extreme { *r.pick(&[5u64, 254, 255]) } else { *r.pick(&[0u64, 0, 1, 2, 2, 3]) };
+    // very deep indexes only with the real minimum block size: with tiny blocks every level is
+    // cut again and again and the file grows to megabytes
+    let (bs, minbs) = if extreme && levels > 5 { (*r.pick(&[0u64, 1024, 4096]), 1024) } else { (bs, minbs) };
     format!("cfg codec={} level={} bs={} minbs={} iv={} levels={}", codec, level, bs, minbs, iv, levels)
 }
 
